@@ -171,6 +171,10 @@ func singleQuoteState(l *sqlLexer) stateFn {
 		l.pos += width
 
 		switch r {
+		case '\\':
+			// the parser honours backslash escapes: the next rune is part of the string
+			_, width = utf8.DecodeRuneInString(l.src[l.pos:])
+			l.pos += width
 		case '\'':
 			nextRune, width := utf8.DecodeRuneInString(l.src[l.pos:])
 			if nextRune != '\'' {
@@ -195,6 +199,10 @@ func doubleQuoteState(l *sqlLexer) stateFn {
 		l.pos += width
 
 		switch r {
+		case '\\':
+			// the parser honours backslash escapes: the next rune is part of the string
+			_, width = utf8.DecodeRuneInString(l.src[l.pos:])
+			l.pos += width
 		case '"':
 			nextRune, width := utf8.DecodeRuneInString(l.src[l.pos:])
 			if nextRune != '"' {
